@@ -788,12 +788,6 @@ def write_pam(matrix, matrix_size, out, scale=1, border=None, dark='#000', light
             See `color` for valid values. In addition, ``None`` is
             accepted which indicates a transparent background.
     """
-    def invert_row_bits(row):
-        """\
-        Inverts the row bits 0 -> 1, 1 -> 0
-        """
-        return bytearray([b ^ 0x1 for b in row])
-
     def row_to_color_values(row, colours):
         return b''.join(colours[b] for b in row)
 
@@ -817,16 +811,19 @@ def write_pam(matrix, matrix_size, out, scale=1, border=None, dark='#000', light
     elif colored_stroke or not (_color_is_black(bg_color) or _color_is_white(bg_color)):
         tuple_type = 'RGB'
     is_rgb = tuple_type.startswith('RGB')
-    colours = None
-    if not is_rgb and transparency:
-        depth = 2
-        colours = (b'\x01\x00', b'\x00\x01')
-    elif is_rgb:
+    if not is_rgb:
+        # Black = 0, white = 1 (MAXVAL)
+        stroke_val, bg_val = int(_color_is_white(stroke_color[:3])), int(_color_is_white(bg_color[:3]))
+        colours = (bytes((bg_val,)), bytes((stroke_val,)))
+        if transparency:
+            depth = 2
+            colours = (bytes((bg_val, 0)), bytes((stroke_val, 1)))
+    else:
         maxval = 255
         depth = 3 if not transparency else 4
         fmt = f'>{depth}B'.encode('ascii')
         colours = (pack(fmt, *bg_color), pack(fmt, *stroke_color))
-    row_filter = invert_row_bits if colours is None else partial(row_to_color_values, colours=colours)
+    row_filter = partial(row_to_color_values, colours=colours)
     with writable(out, 'wb') as f:
         write = f.write
         write('P7\n'
